@@ -14,6 +14,7 @@ import numpy as np
 
 import core
 import pipeline as P
+from fractions import Fraction
 from core import F, rs, rl, pr
 
 PROP = "C04"
@@ -61,6 +62,15 @@ def gen_F(rng, n):
 def one(ctx, C, LP, Fc, klass, fam, seedv, tol):
     drv = ctx.driver()
     n = len(Fc) - 1
+    rec = {}
+    oroots = np.roots
+
+    def roots(poly):
+        r = oroots(poly)
+        rec["roots"] = np.array(r, dtype=complex)
+        rec["poly"] = np.array(poly, dtype=float)
+        return r
+    np.roots = roots
     try:
         with core.quiet():
             g = C.completion_from_root_finding(np.array(Fc), coef_type="F", seed=seedv, tol=tol)
@@ -69,6 +79,8 @@ def one(ctx, C, LP, Fc, klass, fam, seedv, tol):
         out = ("CompletionError", str(e)[:50])
     except Exception as e:  # noqa
         out = ("other:" + type(e).__name__, str(e)[:80])
+    finally:
+        np.roots = oroots
     ctx.count("outcome:" + out[0])
     ctx.count("class:" + klass)
     ctx.case([Fc, seedv, tol], True, {"n": n, "class": klass, "family": fam, "seed": seedv, "tol": tol, "outcome": out[0], "F": Fc[:5]})
@@ -101,6 +113,25 @@ def one(ctx, C, LP, Fc, klass, fam, seedv, tol):
     if v.get("err"):
         raise core.InfraError("validator error " + line)
     ctx.extra["worst_defect_over_tol"] = max(ctx.extra.get("worst_defect_over_tol", 0.0), core.fl(v["bound"] / F(tol)))
+    # glue correspondence: with the roots np.roots returned (oracle), the model's exact product of
+    # the selected / flipped factors and its normalisation must give the same G
+    if v["ok"] and seedv is not None and "roots" in rec:
+        norm = F(float(rec["poly"][-1]))
+        mo = drv.ask("fg.complete %s %s %s %s" % (rs(Fraction(1, 10 ** 8)), rs(norm), "".join(str(int(b)) for b in seedv) or "-",
+                                                 ",".join(core.cxs(z) for z in rec["roots"]) or "-"))
+        ctx.count("glue-compared")
+        if mo == "none":
+            ctx.violation("c04:glue", "model cannot build G from the recorded roots although the code returned", dict(replay, model=mo), found_input=False)
+        else:
+            gl, ratio = mo.split()
+            gm = core.pl(gl)
+            j = max(range(len(gm)), key=lambda i: abs(gm[i]))
+            Gc = [F(float(x)) for x in Xc]
+            big = abs(ratio_ := core.pr(ratio)) * abs(gm[j]) ** 2
+            bad = len(gm) != len(Gc) or any(abs(Gc[k] * Gc[j] - ratio_ * gm[k] * gm[j]) > Fraction(1, 10 ** 7) * big for k in range(len(Gc))) or (Gc[j] > 0) != (gm[j] > 0)
+            if bad:
+                ctx.violation("c04:glue", "G differs from the exact product of the selected / flipped root factors times sqrt(norm/g0) (root selection, seed indexing or normalisation changed)",
+                              dict(replay, G=[float(x) for x in Xc], model_g=[core.fl(x) for x in gm], model_ratio=core.fl(ratio_)), found_input=False)
     if not v["ok"]:
         ctx.violation("c04:not-unitary", "F F~ + G G~ differs from 1 by %.3e >= tol (exact)" % core.fl(v["bound"]),
                       dict(replay, G=[float(x) for x in Xc], defect=core.fl(v["bound"])))
